@@ -7,7 +7,7 @@ failure, late when_connected() gets the same outcome, and the await order of _to
 import z3
 
 from pyvc.exec import Raise, Unsupported
-from pyvc.sym import (VInt, VBool, VStr, VBytes, VNone, NONE, VTuple, VInst, VOpaque, VUnion, VConc, VFunc, VSeq,
+from pyvc.sym import (VInt, VBool, VStr, VBytes, VNone, NONE, VTuple, VInst, VOpaque, VUnion, VConc, VFunc, VSeq, VList,
                       concrete_of, mk_str, zand, zor, TOpaque)
 from contracts import process as P
 
@@ -306,8 +306,77 @@ def unit_tor_connected():
     return run
 
 
+class InitModels19(NotifyModels):
+    """externals of TorProcessProtocol.__init__: IReactorTime(x) adapts to x itself, reactor.callLater is recorded, StringIO()"""
+    def callable_(self, ex, path, obj, args, kw):
+        import io
+        from twisted.internet.interfaces import IReactorTime
+        if obj is IReactorTime:
+            return [(path, args[0])]
+        if obj is io.StringIO:
+            return [(path, VOpaque('stringio', ex.fresh_int(path, 'sio')))]
+        return NotifyModels.callable_(self, ex, path, obj, args, kw)
+
+    def method(self, ex, path, recv, name, args, kw):
+        if isinstance(recv, VOpaque) and recv.kind == 'reactor' and name == 'callLater':
+            self.assumptions.add('A6 IReactorTime.callLater(delay, f): f runs once, delay seconds from now (a relative delay)')
+            c = VOpaque('DelayedCall', ex.fresh_int(path, 'call'))
+            self.glog_add(path, 'callLater', (tuple(args), c))
+            return [(path, c)]
+        if isinstance(recv, VOpaque) and recv.kind == 'reactor' and name == 'seconds' and not args:
+            from pyvc.sym import VFloat
+            return [(path, VInt(z3.Int('reactor_clock_now')))]      # whatever the reactor clock reads at launch
+        return NotifyModels.method(self, ex, path, recv, name, args, kw)
+
+
+def unit_init(with_timeout):
+    """the constructor establishes what the handler units start from: nobody waiting yet, no outcome, and - with a timeout - one
+    pending call of _timeout_expired exactly `timeout` seconds from now"""
+    def run(ctx):
+        ctx.fn(MODULE, 'TorProcessProtocol.__init__')
+        import txtorcon.controller as ctl
+        ex = ctx.ex
+        path = ctx.new_path()
+        tpp = ex.new_inst(path, ctl.TorProcessProtocol)
+        t = z3.Int('timeout')
+        ctx.input('timeout', t)
+        path.assume(t > 0)
+        react = VOpaque('reactor', 7001)
+        kw = {'ireactortime': react, 'timeout': VInt(t)} if with_timeout else {}
+        ctx.cover('pre_satisfiable', path)
+        g = ex.getattr_v(path, tpp, '__init__')
+        n_ok = 0
+        for p, r in ex.call(g[0][0], g[0][1], [VOpaque('connection_creator', 7100), VOpaque('progress_cb', 7200)], kw):
+            if isinstance(r, Raise):
+                ctx.oblige('no_exception', p, B(False))
+                continue
+            n_ok += 1
+            H = p.heap
+            o = tpp.oid
+            lst = H.get(('f', o, '_connected_listeners'))
+            ctx.oblige('post.nobody_waiting_and_no_outcome_yet', p,
+                       B(isinstance(lst, VList) and len(ex.list_items(p, lst)) == 0 and H.get(('f', o, '_connected_result')) is tpp),
+                       clause='the launch result fires at most once (it starts unfired)')
+            calls = ctx.models.glog(p, 'callLater')
+            dc = H.get(('f', o, '_timeout_delayed_call'))
+            if with_timeout:
+                ok = (len(calls) == 1 and len(calls[0][0]) == 2 and isinstance(calls[0][0][0], VInt) and isinstance(calls[0][0][1], VFunc)
+                      and calls[0][0][1].qualname.endswith('TorProcessProtocol._timeout_expired') and calls[0][0][1].bound is tpp and dc is calls[0][1])
+                ctx.oblige('post.timeout_armed_once_for_exactly_the_given_delay', p, zand(B(ok), calls[0][0][0].t == t) if ok else B(False),
+                           clause='it fails if the timeout elapses first (the timeout counts from the launch, whatever the reactor clock reads)')
+            else:
+                ctx.oblige('post.no_timer_without_a_timeout', p, B(len(calls) == 0 and isinstance(dc, VNone)))
+        if not n_ok:
+            ctx.oblige('some_normal_exit', path, B(False))
+    return run
+
+
+def make_models_for(unit_name):
+    return InitModels19() if '__init__' in unit_name else NotifyModels()
+
+
 def units():
-    out = []
+    out = [('C19/TorProcessProtocol.__init__@timeout', unit_init(True)), ('C19/TorProcessProtocol.__init__@no_timeout', unit_init(False))]
     for h in ('when_connected', '_maybe_notify_connected', '_timeout_expired', 'processEnded', '_status_client', 'outReceived', 'errReceived'):
         for notified in (False, True):
             out.append(('C19/%s@%s' % (h, 'outcome_known' if notified else 'pending'), unit_handler(h, notified)))
